@@ -51,3 +51,21 @@ def replay_hostile_reply(doc):
         if r: bad.append('%s (%r...) -> %s escapes (not a per-URL error kind)' % (what, wire[:24], r))
     if bad: return True, '; '.join(bad)
     return False, '%d hostile control-connection streams end in a reply or a per-URL error kind' % len(cases)
+
+
+def replay_hostile_size(doc):
+    """C09: whatever the server answers to SIZE, Commander.size returns a size / None or raises a per-URL error kind"""
+    from replay.httpstream import ReaderConnection, _classify
+    from wpull.protocol.ftp.stream import ControlStream
+    from wpull.protocol.ftp.command import Commander
+
+    class Conn(ReaderConnection):
+        def write(self, data, drain=True):
+            if False: yield
+    bad = []
+    for reply in [b'213 1024\r\n', b'213 \r\n', b'213  \t \r\n', b'213-\r\n213 \r\n', b'213\r\n213 \r\n', b'213 abc\r\n', b'213 99999999999999999999999999\r\n', b'213 12 bytes\r\n', b'213 -5\r\n',
+                  b'213 1e3\r\n', b'213 \xff\xfe\r\n', b'213-a\r\n213 b\r\n', b'550 no\r\n', b'213 \x0b\x0c\r\n', b'213 \xc2\x85\r\n']:
+        r = _classify(lambda: Commander(ControlStream(Conn(reply))).size('/file'))
+        if r: bad.append('SIZE answered %r -> %s escapes' % (reply, r))
+    if bad: return True, '; '.join(bad[:4])
+    return False, '15 SIZE replies end in a size, None or a per-URL error kind'
